@@ -21,6 +21,8 @@ from harness import common as C
 PROP = "C15"
 TARGETS = ["IbicusModel.Props.C15"]
 GEN = ["Config"]
+TARGETS += ["IbicusModel.Lemmas.GenIsimipStep6"]  # tier A of ISIMIP step 6 (`_step6_adjust_values_between_thresholds`: fixed fit arguments from the has_* flags, fallback structure; `step6`; `_apply_on_window`)
+GEN += ["IsimipStep6"]  # Gen.IsimipStep6: symbolic reading by translator/extract_isimip_step6.py
 
 DEBS = ["LinearScaling", "DeltaChange", "QuantileMapping", "ScaledDistributionMapping", "CDFt", "ECDFM", "QuantileDeltaMapping", "ISIMIP"]
 WINDOW_FIELDS = {"running_window_mode", "running_window_length", "running_window_step_length", "running_window_mode_over_years_of_cm_future",
@@ -502,6 +504,277 @@ def fields_line(inst, names):
     return ";".join(parts) if parts else "-"
 
 
+# ------------------------------------------------------------------ ISIMIP with bounds on ONE side only (or on none)
+# Clause covered: "an ISIMIP debiaser built without bounds treats the variable as unbounded as documented", read PER SIDE
+# (quantifier "configurations"): the documented defaults -inf / +inf mean "this side has no bound / no threshold". A debiaser
+# built with the lower side only (precipitation-like: the library's own pr, sfcWind, tasrange), the upper side only, a bound
+# without a threshold, or nothing must treat every side that was NOT given as unbounded in every step — in particular in step 6,
+# whose documented default is the PARAMETRIC quantile mapping with `distribution` ("if nonparametric_qm = True or
+# ks_test_for_goodness_of_cdf_fit = True and a Kolmogorov Smirnov statistic indicates a bigger misfit a nonparametric quantile
+# mapping is used instead"): the infinite stand-in of a missing threshold must never enter the distribution fit as a number
+# (fscale = upper_threshold - lower_threshold = inf makes scipy's fit raise or return scale = inf, and step 6 then silently maps
+# nonparametrically / returns garbage), a parameter may be fixed only from thresholds that exist, the parametric fit must be
+# attempted, and step 6 may fall back only when a fit really failed. Observed through the object the USER passes in: `distribution`
+# is a fresh instance of the scipy distribution class whose public `fit` records its calls (no patching of the library), and through
+# the library logger. Dimensions generated: side given x distribution (gamma, norm, weibull_min, rice, lognorm) x construction path
+# (side given and the rest left at the default / the rest given explicitly as -inf, +inf / built two-sided and the other side removed
+# by assignment / from_variable with keyword overrides / the library's own one-sided variables) x trend preservation x KS test on, off
+# x share of values beyond the threshold x call form (the public step4 -> step5 -> step6 on one window; the full apply month-wise
+# and with the running window). Every path must give bitwise the same output as the plain "rest left at the default" construction.
+ONESIDE = {"lower": {"lower_bound": 0.0, "lower_threshold": 0.25}, "upper": {"upper_bound": 100.0, "upper_threshold": 99.75},
+           "lower_bound_only": {"lower_bound": 0.0}, "upper_bound_only": {"upper_bound": 100.0}, "none": {}}
+ONESIDE_INF = {"lower_bound": -np.inf, "lower_threshold": -np.inf, "upper_bound": np.inf, "upper_threshold": np.inf}
+ONESIDE_TWO = {"lower_bound": 0.0, "lower_threshold": 0.25, "upper_bound": 100.0, "upper_threshold": 99.75}
+ONESIDE_LIBVARS = {"pr": ("gamma", 2.0 ** -17), "sfcwind": ("weibull_min", 1.0), "tasrange": ("weibull_min", 1.0)}  # variable -> (its distribution, data scale)
+ONESIDE_DISTS = ["gamma", "norm", "weibull_min", "rice", "lognorm"]
+ONESIDE_PATHS = ["explicit_inf", "assigned_inf", "from_variable"]
+
+
+def spy_distribution(dname, rec):
+    """a FRESH instance of scipy.stats.<dname>'s class (same type, so the library's per-distribution branches see the real thing) whose
+    public `fit` records every call: sample size, fixed parameters, outcome; for a call with a non-finite fixed parameter also
+    whether the same fit is feasible with that parameter left free"""
+    import scipy.stats
+
+    base = getattr(scipy.stats, dname)
+    kw = {"name": dname}
+    if np.isfinite(base.a):
+        kw["a"] = base.a
+    if np.isfinite(base.b):
+        kw["b"] = base.b
+    d = type(base)(**kw)
+    orig = d.fit
+
+    def fit(data, *args, **kwds):
+        fixed = {k: (None if v is None else float(v)) for k, v in kwds.items() if k.startswith("f") and (v is None or isinstance(v, (int, float, np.integer, np.floating)))}
+        e = {"n": int(np.size(data)), "fixed": fixed, "nonfinite": sorted(k for k, v in fixed.items() if v is not None and not np.isfinite(v))}
+        rec.append(e)
+        if e["nonfinite"]:
+            try:
+                r0 = orig(np.array(data, dtype=float), *args, **{k: v for k, v in kwds.items() if k not in e["nonfinite"]})
+                e["feasible_with_that_parameter_free"] = bool(np.all(np.isfinite(np.asarray(r0, dtype=float))))
+            except Exception:  # noqa: BLE001
+                e["feasible_with_that_parameter_free"] = False
+        try:
+            r = orig(data, *args, **kwds)
+        except Exception as ex:
+            e["raised"] = f"{type(ex).__name__}: {str(ex)[:70]}"
+            raise
+        e["returned"] = [float(x) for x in r]
+        return r
+
+    d.fit = fit
+    return d
+
+
+def oneside_series(spec, n, seed, factor):
+    """positive, gamma-like values (so that every trend preservation method is defined); a share `frac` sits ON the bound of a side
+    that was given with a threshold; mirrored below 100 for the upper side"""
+    r = np.random.RandomState(seed)
+    v = r.gamma(2.0, 3.0 * factor, n) + 0.5
+    u = r.uniform(size=n)
+    side = spec["side"]
+    if side == "lower":
+        v[u < spec["frac"]] = 0.0
+    elif side in ("upper", "upper_bound_only"):
+        v = np.maximum(100.0 - v, 1.0)
+        if side == "upper":
+            v[u < spec["frac"]] = 100.0
+    return np.round(v * 64) / 64 * spec.get("scale", 1.0)
+
+
+def oneside_build(spec, path, rec):
+    """the debiaser of `spec` built along `path`; every path describes the SAME configuration"""
+    import ibicus.debias as D
+
+    dist = spy_distribution(spec["dist"], rec)
+    core = dict(distribution=dist, trend_preservation_method=spec["trend"], detrending=False, nonparametric_qm=False,
+                ks_test_for_goodness_of_cdf_fit=spec["ks"])
+    if spec["call"] == "apply":
+        core.update(running_window_mode=spec["window"] == "running", running_window_step_length=31)
+    side = ONESIDE[spec["side"]]
+    if spec.get("var"):  # one of the library's own one-sided variables (its table gives the upper side explicitly as inf)
+        core.pop("trend_preservation_method")
+        if path == "default":
+            return D.ISIMIP.from_variable(spec["var"], **core)
+        if path == "explicit_inf":
+            return D.ISIMIP.from_variable(spec["var"].upper(), upper_bound=float("inf"), upper_threshold=float("inf"), **core)
+        inst = D.ISIMIP.from_variable(spec["var"], upper_bound=100.0, upper_threshold=99.75, **core)
+        inst.upper_threshold = np.inf
+        inst.upper_bound = np.inf
+        return inst
+    if path == "default" and spec["path"] == "from_variable":
+        # from_variable puts the ISIMIP3 general settings under the variable's; the plain twin is given them explicitly
+        from ibicus.debias._isimip_options import isimip3_general_settings
+
+        return D.ISIMIP(**{**isimip3_general_settings, **core, **side})
+    if path == "default":
+        return D.ISIMIP(**core, **side)
+    if path == "explicit_inf":
+        return D.ISIMIP(**core, **{**ONESIDE_INF, **side})
+    if path == "from_variable":
+        return D.ISIMIP.from_variable("tas", **core, **side)
+    inst = D.ISIMIP(**core, **ONESIDE_TWO)  # "assigned_inf": built two-sided, every side not in `side` removed by assignment
+    for k, v in ONESIDE_INF.items():
+        if k not in side:
+            setattr(inst, k, v)
+    for k, v in side.items():
+        setattr(inst, k, v)
+    return inst
+
+
+def oneside_run(spec, path):
+    """-> dict(result = ('ok', output) | ('error', text), fits = recorded fit calls, failed = number of 'fit failed' log messages,
+    between = (values of cm_future, of the pseudo future observations strictly between the thresholds; step6 call only))"""
+    from ibicus.utils import get_library_logger
+
+    rec, msgs, between = [], [], None
+
+    class Collect(logging.Handler):
+        def emit(self, record):
+            msgs.append(record.getMessage())
+
+    lg = get_library_logger()
+    h = Collect(level=logging.DEBUG)
+    old_level, old_prop = lg.level, lg.propagate
+    lg.addHandler(h)
+    lg.setLevel(logging.DEBUG)
+    lg.propagate = False
+    old_err = np.seterr(all="ignore")
+    try:
+        with warnings.catch_warnings():
+            warnings.simplefilter("ignore")
+            inst = oneside_build(spec, path, rec)
+            np.random.seed(12345)
+            ds = spec["data_seed"]
+            if spec["call"] == "step6":
+                no, nh, nf = spec["n"]
+                oh, ch, cf = oneside_series(spec, no, ds, 1.0), oneside_series(spec, nh, ds + 1, 1.3), oneside_series(spec, nf, ds + 2, 1.6)
+                oh, ch, cf = inst.step4(oh, ch, cf)
+                of = inst.step5(oh, ch, cf)
+                lt, ut = inst.lower_threshold, inst.upper_threshold
+                between = (int(((cf > lt) & (cf < ut)).sum()), int(((of > lt) & (of < ut)).sum()))
+                del rec[:]
+                del msgs[:]
+                out = inst.step6(oh, of, ch, cf)
+            else:
+                no, nh, nf = 730, 730, 1096
+                o, hh, f = (oneside_series(spec, n, ds + k, fac).reshape(n, 1, 1) for k, (n, fac) in enumerate(((no, 1.0), (nh, 1.3), (nf, 1.6))))
+                out = inst.apply(o, hh, f, progressbar=False, time_obs=dates(no), time_cm_hist=dates(nh), time_cm_future=dates(nf))
+        result = ("ok", np.asarray(out))
+    except Exception as ex:  # noqa: BLE001
+        result = ("error", f"{type(ex).__name__}: {str(ex)[:120]}")
+    finally:
+        np.seterr(**old_err)
+        lg.removeHandler(h)
+        lg.setLevel(old_level)
+        lg.propagate = old_prop
+    failed = sum(1 for m in msgs if "Parametric CDF fit" in m and "failed" in m)
+    return {"result": result, "fits": rec, "failed": failed, "between": between}
+
+
+def oneside_judge(spec):
+    """-> (problems [(what, message, extra)], info) for one configuration: the plain construction judged on its own, then the
+    other construction path of the spec compared with it bitwise"""
+    problems, info = [], {}
+    side = spec["side"]
+    has_lt = side == "lower" or bool(spec.get("var"))
+    has_ut = side == "upper"
+    runs = {p: oneside_run(spec, p) for p in ("default", spec["path"])}
+    for p, r in runs.items():
+        where = "rest left at the default" if p == "default" else {"explicit_inf": "rest given explicitly as -inf / +inf", "assigned_inf": "built two-sided, the other side removed by assignment",
+                                                                  "from_variable": "from_variable('tas', **settings)"}[p]
+        if r["result"][0] != "ok":
+            problems.append(("isimip_oneside_error", f"ISIMIP with {side_text(spec)} ({where}): {'step4 -> step5 -> step6 on one window' if spec['call'] == 'step6' else 'apply'} raises {r['result'][1]}", {"path": p}))
+            continue
+        fits = r["fits"]
+        genuine = [e for e in fits if not e["nonfinite"] and ("raised" in e or not np.all(np.isfinite(e.get("returned", [0.0]))))]
+        for e in fits:
+            bad = []
+            for k in e["nonfinite"]:
+                bad.append(f"{k}={e['fixed'][k]} (the infinite stand-in of a threshold that was not given is used as a number)")
+            if e["fixed"].get("fscale") is not None and not (has_lt and has_ut) and "fscale" not in e["nonfinite"]:
+                bad.append(f"fscale={e['fixed']['fscale']} fixed although the variable has no threshold on {'either' if not (has_lt or has_ut) else 'the ' + ('upper' if has_lt else 'lower')} side")
+            if e["fixed"].get("floc") is not None and not has_lt and "floc" not in e["nonfinite"]:
+                bad.append(f"floc={e['fixed']['floc']} fixed although the variable has no lower threshold")
+            if bad:
+                then = (f"the fit raises ({e['raised']}) and step 6 silently maps nonparametrically" if "raised" in e
+                        else f"the fit returns {e.get('returned')}")
+                feas = ("" if "feasible_with_that_parameter_free" not in e else
+                        f"; the same fit with that parameter left free is {'feasible' if e['feasible_with_that_parameter_free'] else 'not feasible either'}")
+                problems.append(("isimip_oneside_fit_args",
+                                 f"ISIMIP with {side_text(spec)} ({where}): step 6 fits {spec['dist']} to {e['n']} values with {'; '.join(bad)} — {then}{feas}; "
+                                 f"{r['failed']} 'parametric CDF fit failed' fallbacks in this {spec['call']}", {"path": p, "fit_call": os_json(e)}))
+                break
+        if r["failed"] > sum(1 for e in fits if "raised" in e or not np.all(np.isfinite(e.get("returned", [0.0])))):
+            problems.append(("isimip_oneside_fallback", f"ISIMIP with {side_text(spec)} ({where}): step 6 reports {r['failed']} failed parametric fits and maps nonparametrically, "
+                             f"but only {len([e for e in fits if 'raised' in e])} of the {len(fits)} fits it ran failed", {"path": p}))
+        if not np.all(np.isfinite(r["result"][1])) and all(np.all(np.isfinite(e.get("returned", [0.0]))) for e in fits) and not any(e["nonfinite"] for e in fits):
+            problems.append(("isimip_oneside_nonfinite", f"ISIMIP with {side_text(spec)} ({where}): {spec['call']} returns "
+                             f"{int((~np.isfinite(r['result'][1])).sum())} non-finite values for finite input although every distribution fit it ran returned finite "
+                             f"parameters — a side that was not given is not treated as unbounded", {"path": p}))
+        enough = r["between"] is None or min(r["between"]) >= 2
+        if enough and not fits:
+            problems.append(("isimip_oneside_no_parametric", f"ISIMIP with {side_text(spec)} ({where}), nonparametric_qm=False: {spec['call']} never fits the distribution "
+                             f"(values between the thresholds: {r['between']}) — the documented parametric quantile mapping is not what runs", {"path": p}))
+        if p == "default":
+            info = {"fits": len(fits), "fit_failures_with_finite_or_no_fixed_parameters": len(genuine), "fallbacks": r["failed"],
+                    "first_fit": os_json(fits[0]) if fits else None}
+    a, b = runs["default"]["result"], runs[spec["path"]]["result"]
+    if a[0] == b[0] == "ok" and not (a[1].shape == b[1].shape and np.array_equal(a[1], b[1], equal_nan=True)):
+        d = float(np.nanmax(np.abs(a[1] - b[1]))) if a[1].shape == b[1].shape else None
+        problems.append(("isimip_oneside_default_vs_inf", f"ISIMIP with {side_text(spec)}: the construction path '{spec['path']}' gives another {spec['call']} output than leaving the "
+                         f"other settings at their default (max |diff| = {d}) although both describe the same configuration", {"path": spec["path"]}))
+    return problems, info
+
+
+def os_json(o):
+    """recorded fit call -> strict JSON (non-finite floats as text)"""
+    if isinstance(o, dict):
+        return {k: os_json(v) for k, v in o.items()}
+    if isinstance(o, (list, tuple)):
+        return [os_json(v) for v in o]
+    if isinstance(o, float) and not np.isfinite(o):
+        return repr(o)
+    return o
+
+
+def side_text(spec):
+    if spec.get("var"):
+        return f"the library's settings for {spec['var']} (lower bound and threshold only), distribution {spec['dist']}"
+    given = ONESIDE[spec["side"]]
+    return (", ".join(f"{k}={v}" for k, v in given.items()) if given else "no bound and no threshold") + f" and nothing else, distribution {spec['dist']}"
+
+
+def oneside_specs(tier, rng):
+    """systematic: every side x every distribution on one step-6 window (the other dimensions rotate / are drawn), the library's
+    one-sided variables, the full apply; then seeded random configurations"""
+    specs = []
+
+    def draw(**fixed):
+        s = {"side": rng.choice(list(ONESIDE)), "dist": rng.choice(ONESIDE_DISTS), "trend": rng.choice(["mixed", "additive", "multiplicative"]),
+             "ks": rng.random() < 0.5, "path": rng.choice(ONESIDE_PATHS), "frac": rng.choice([0.0, 0.1, 0.25, 0.4]), "call": "step6",
+             "n": [rng.randrange(60, 400), rng.randrange(60, 400), rng.randrange(60, 400)], "data_seed": rng.randrange(10 ** 6)}
+        s.update(fixed)
+        return s
+
+    k = 0
+    for side in ONESIDE:
+        for dist in ONESIDE_DISTS:
+            specs.append(draw(side=side, dist=dist, path=ONESIDE_PATHS[k % 3], ks=bool(k % 2)))
+            k += 1
+    for var, (dist, scale) in ONESIDE_LIBVARS.items():
+        for path in ("explicit_inf", "assigned_inf"):
+            specs.append(draw(side="lower", dist=dist, var=var, scale=scale, path=path, trend="mixed"))
+    for side, dist, window, path in (("lower", "gamma", "month", "explicit_inf"), ("lower", "norm", "running", "assigned_inf"),
+                                     ("upper", "norm", "month", "from_variable"), ("lower", "weibull_min", "running", "explicit_inf")):
+        specs.append(draw(side=side, dist=dist, call="apply", window=window, path=path, frac=0.25, n=None))
+    specs.append(draw(side="lower", dist="gamma", var="pr", scale=2.0 ** -17, call="apply", window="month", path="explicit_inf", frac=0.25, n=None, trend="mixed"))
+    for _ in range(30 if tier == "quick" else 300):
+        specs.append(draw())
+    return specs
+
+
 # ------------------------------------------------------------------ the check
 def run(tier, res, force_search=False):
     import attrs
@@ -517,7 +790,9 @@ def run(tier, res, force_search=False):
                 "full / full minus one / 4 seeded) +- a setting outside them, given the default's own or another valid value, x 4 spellings: outcome as "
                 "documented, overrides and remaining defaults on the instance; every (debiaser, attrs field): one valid override (kwarg visible; constructor- vs "
                 "attribute-configured apply output compared bitwise on a fixed 730/730/1096-day 1x2 data set) and one or two invalid values per validator; "
-                "seeded: has_* on random bound quadruples. Non-trivial = the cell is supported-with-warning or unsupported / the spelling differs "
+                "seeded: has_* on random bound quadruples; ISIMIP with bounds on one side only / a bound without threshold / nothing: 5 sides x 5 distributions "
+                "systematically + the library's one-sided variables + the full apply + seeded random configurations (construction path, trend preservation, KS test, "
+                "share of values on the bound, sizes), fit calls observed through the distribution object passed in. Non-trivial = the cell is supported-with-warning or unsupported / the spelling differs "
                 "from the key / the override changes the apply output / the value is invalid; distinct = distinct tuples")
     res.trusted = C.BASE_TRUSTED + [
         "translator/extract_config.py (AST -> tables); attrs semantics (validators and converters run on __init__ and on attribute assignment) "
@@ -535,7 +810,13 @@ def run(tier, res, force_search=False):
                        "censored-gamma distribution from x (for_precipitation) whereas assigning censoring_threshold leaves the distribution alone, as the "
                        "class docstring warns; read as a derived default under the property's guard (measured: see qdm_pr_unguarded_censoring_threshold)",
                        "the attrs field `variable` cannot be passed as a from_variable keyword (it is from_variable's own first parameter); not an override",
-                       "randomised steps (SSR, hurdle randomisation, ISIMIP step 4) are compared under the same numpy seed"]
+                       "randomised steps (SSR, hurdle randomisation, ISIMIP step 4) are compared under the same numpy seed",
+                       "'built without bounds ... unbounded as documented' is read per side: a side left at its documented default (-inf / +inf) is unbounded in "
+                       "every step whatever the other side is; in step 6 the infinite stand-in must not enter the distribution fit, a parameter is fixed only "
+                       "from thresholds that exist, the parametric fit is attempted and step 6 falls back only when a fit really failed (RUNTIME-ONLY, no "
+                       "theorem). A fit that raises although every fixed parameter it got is finite or None is tolerated and counted "
+                       "(isimip_one_sided.fit_failures_with_finite_or_no_fixed_parameters: with the installed scipy, gamma / rice / weibull_min reject an "
+                       "explicit floc=None, so ISIMIP with these distributions and no lower threshold always maps nonparametrically)"]
 
     lean_ok = C.lean_phase(res, PROP, GEN, TARGETS)
     problems, lines, expect = [], [], []
@@ -1057,6 +1338,27 @@ def run(tier, res, force_search=False):
             if not ok_seq:
                 problems.append((f"{ctor}: {first} first, then {', '.join(f'{k}={v}' for k, v in asg)} assigned, then apply differs from an instance constructed "
                                  f"with these settings ({diff_detail(ra, rs)})", scase, {"what": "sequence_assign_ne_construct"}))
+    # ---- (f') ISIMIP with bounds on ONE side only / a bound without threshold / nothing: every side not given is unbounded in
+    # every step (see the comment above ONESIDE); own PRNG stream so that the other case streams do not shift
+    t_os = _time.time()
+    rng_os = random.Random(C.seed() * 7919 + 151515)
+    os_stats = {"configurations": 0, "fit_calls_seen": 0, "fit_failures_with_finite_or_no_fixed_parameters": 0, "fallbacks_after_such_failures": 0}
+    for spec in oneside_specs(tier, rng_os):
+        try:
+            probs, info = oneside_judge(spec)
+        except Exception as ex:  # noqa: BLE001  (the judge itself must never crash the check)
+            probs, info = [("isimip_oneside_error", f"ISIMIP one-sided configuration could not be judged: {type(ex).__name__}: {str(ex)[:120]}", {})], {}
+        os_stats["configurations"] += 1
+        os_stats["fit_calls_seen"] += info.get("fits", 0)
+        os_stats["fit_failures_with_finite_or_no_fixed_parameters"] += info.get("fit_failures_with_finite_or_no_fixed_parameters", 0)
+        os_stats["fallbacks_after_such_failures"] += info.get("fallbacks", 0) if not probs else 0
+        res.count(("ISIMIP", "one side", spec["side"], spec["dist"], spec["path"], spec["call"], spec.get("var"), spec["trend"], spec["ks"], spec["frac"], spec["data_seed"]),
+                  spec["side"] != "none", sample={"debiaser": "ISIMIP", **spec, **info} if os_stats["configurations"] % 9 == 1 else None)
+        for what, msg, extra in probs:
+            problems.append((msg, {"debiaser": "ISIMIP", "setting": spec["call"], "spec": spec, **extra}, {"what": what}))
+    os_stats["wall_s"] = round(_time.time() - t_os, 2)
+    res.extra["isimip_one_sided"] = os_stats
+
     # has_* correspondence on random bound quadruples
     n_has = 40 if tier == "quick" else 600
     pool = [-np.inf, np.inf, 0.0, 1.0, -3.5, 100.0, 0.0001]
@@ -1144,6 +1446,12 @@ def replay(data):
     cls = getattr(D, fi["debiaser"])
     what = data.get("signature", {}).get("what")
     print("replaying", what, fi)
+    if what and what.startswith("isimip_oneside") and isinstance(fi.get("spec"), dict):
+        probs, info = oneside_judge(fi["spec"])
+        for w, msg, _ in probs:
+            print(f"  [{w}] {msg}")
+        print("  measured:", info)
+        return 1 if any(w == what for w, _, _ in probs) else 0
     if what in ("assign_rejects_construct_accepts", "assign_accepts_construct_rejects", "assign_stores_differently") and "value_type" in fi:
         x = eval(fi["value"], {"np": np})  # noqa: S307  repr of a Python / numpy scalar written by this check
         base_kw = base_kwargs(fi["debiaser"], "tas")
